@@ -36,6 +36,9 @@ def check_prefix(intact, cut, what):
                             % (what, k, len(db), len(da), b[10]))
     return None
 
+FIELD_STRINGS = sorted(set(x for ents in (readcore.STD_ENTRIES, readcore.LONG_ENTRIES, readcore.FLAT_ENTRIES) for e in ents
+                           for x in ((e[0].encode() if isinstance(e[0], str) else e[0]), e[7]) if len(x) >= 3))
+
 def run(rep):
     pr = vlib.proof_part(rep, "C08", translators=["gen_defines"])
     runner = vlib.build_runner("readCore")
@@ -61,6 +64,16 @@ def run(rep):
             offs = list(range(L))
         else:
             offs = sorted(set([0, 1, L - 1] + [r.randrange(L) for _ in range(64)]))
+        # cuts inside the header fields that a reader fetches with a separate look-ahead: every place where a
+        # member name or a link target of the writer's entries is stored in the clear
+        if name.startswith("w:"):
+            fo = set()
+            for fs in FIELD_STRINGS:
+                pos, nocc = arc.find(fs), 0
+                while pos >= 0 and nocc < (4 if quick else 12):
+                    fo.update([pos + len(fs) // 2, pos + len(fs) - 1] if quick else [pos + 1, pos + len(fs) // 2, pos + len(fs) - 1, pos + len(fs)])
+                    pos, nocc = arc.find(fs, pos + 1), nocc + 1
+            offs = sorted(set(offs) | set(o for o in fo if 0 <= o < L))
         for cut in offs:
             bs = r.choice([512, 10240, 7])
             rcases.append(readcore.read_case(arc[:cut], source=(0,), rplan=[bs] * (cut // bs + 2), consume=dump, noraw=1))
